@@ -292,3 +292,144 @@ func ruleAggKindPerSource(c *eng.Ctx) {
 	}
 	c.Floor(rule, n, 2)
 }
+
+// ruleEventCollectionID: update events are routed (pubsub topic, replicator table) by the
+// collection's id, which is the same for all of its schema versions; a version id in that slot works
+// until the schema is patched and then addresses a topic nobody listens on. Every event.Update built
+// in internal/db takes CollectionID from the `CollectionID` field of a collection version.
+func ruleEventCollectionID(c *eng.Ctx) {
+	const rule = "EVENT-COLLECTION-ID"
+	n := 0
+	for _, fi := range c.P.FuncsIn("internal/db") {
+		if fi.Decl.Body == nil || isTestFile(c.P, fi) {
+			continue
+		}
+		info := fi.Pkg.TypesInfo
+		ord := 0
+		ast.Inspect(fi.Decl.Body, func(m ast.Node) bool {
+			cl, ok := m.(*ast.CompositeLit)
+			if !ok || eng.TypeName(info.TypeOf(cl)) != "event.Update" {
+				return true
+			}
+			for _, el := range cl.Elts {
+				kv, ok := el.(*ast.KeyValueExpr)
+				if !ok {
+					continue
+				}
+				if id, ok := kv.Key.(*ast.Ident); !ok || id.Name != "CollectionID" {
+					continue
+				}
+				ord++
+				n++
+				good := false
+				if se, ok := ast.Unparen(kv.Value).(*ast.SelectorExpr); ok && se.Sel.Name == "CollectionID" {
+					if v, ok := info.Uses[se.Sel].(*types.Var); ok && v.IsField() {
+						good = true
+					}
+				}
+				c.Check(good, rule, fmt.Sprintf("%s:event.Update#%d:CollectionID", shortFn(fi), ord), kv.Pos(), "addressed by the collection's id",
+					"the update event is addressed with "+eng.ExprStr(kv.Value)+" instead of the collection version's CollectionID: after a schema patch the commit is published under an id no peer subscribes to and no replicator is registered for — nodes on different schema versions stop receiving it")
+			}
+			return true
+		})
+	}
+	c.Floor(rule, n, 3)
+}
+
+// ruleFieldIDsEveryField: id.SetShortFieldIDs gives every field of the version a short id: its only
+// successful exit lies after the loop over the version's fields (no early "nothing to do" return).
+func ruleFieldIDsEveryField(c *eng.Ctx) {
+	const rule = "FIELD-IDS-EVERY-FIELD"
+	fi := c.Anchor(rule, "internal/db/id.SetShortFieldIDs")
+	if fi == nil {
+		return
+	}
+	info := fi.Pkg.TypesInfo
+	var loop *ast.RangeStmt
+	ast.Inspect(fi.Decl.Body, func(m ast.Node) bool {
+		if rs, ok := m.(*ast.RangeStmt); ok && loop == nil {
+			if se, ok := ast.Unparen(rs.X).(*ast.SelectorExpr); ok && se.Sel.Name == "Fields" {
+				loop = rs
+			}
+		}
+		return true
+	})
+	if loop == nil {
+		c.Bad(rule, "SetShortFieldIDs:loop-over-fields", fi.Decl.Pos(), "SetShortFieldIDs no longer ranges over the version's fields")
+		return
+	}
+	flow := eng.NewFlow(info, fi.Decl.Body)
+	n := 0
+	for _, r := range successReturnsP(c.P, info, fi.Decl) {
+		n++
+		inLoop := loop.Body.Pos() <= r.Pos() && r.End() <= loop.Body.End()
+		pt, ok := flow.PointOf(r)
+		if !ok {
+			continue
+		}
+		before := flow.ReachesWithout(pt, func(nd ast.Node) bool {
+			return nd == ast.Node(loop.X) || (nd.Pos() >= loop.Pos() && nd.End() <= loop.End())
+		}, nil)
+		c.Check(!before && !inLoop, rule, fmt.Sprintf("SetShortFieldIDs:success-return#%d:after-all-fields", n), r.Pos(), "succeeds only after every field was given an id",
+			"SetShortFieldIDs can report success before (or without finishing) the loop over the version's fields: a field added on a branched version history keeps short id 0, shares the _docID slot, and its values become unreadable once an id is finally assigned")
+	}
+	c.Floor(rule, n, 1)
+}
+
+// ruleRecursionResult: a self-recursive function that returns a value accumulates through that
+// value; a recursive call whose result is dropped loses what the sub-tree computed (e.g. the highest
+// set id handed out so far, which is then handed out again).
+func ruleRecursionResult(c *eng.Ctx, rule string, pkgs []string) {
+	n := 0
+	for _, fi := range c.P.Funcs() {
+		if fi.Decl.Body == nil || !pkgMatch(eng.ShortPkg(fi.Pkg.PkgPath), pkgs) || isTestFile(c.P, fi) {
+			continue
+		}
+		sig := fi.Obj.Type().(*types.Signature)
+		nonErr := 0
+		for i := 0; i < sig.Results().Len(); i++ {
+			if !eng.IsErrorType(sig.Results().At(i).Type()) {
+				nonErr++
+			}
+		}
+		info := fi.Pkg.TypesInfo
+		ord := 0
+		ast.Inspect(fi.Decl.Body, func(m ast.Node) bool {
+			if _, ok := m.(*ast.FuncLit); ok {
+				return false
+			}
+			var call *ast.CallExpr
+			dropped := false
+			switch s := m.(type) {
+			case *ast.ExprStmt:
+				call, _ = s.X.(*ast.CallExpr)
+				dropped = true
+			case *ast.AssignStmt:
+				if len(s.Rhs) == 1 {
+					call, _ = s.Rhs[0].(*ast.CallExpr)
+					dropped = true
+					for i, l := range s.Lhs {
+						if id, ok := l.(*ast.Ident); ok && id.Name == "_" {
+							continue
+						}
+						if i < sig.Results().Len() && !eng.IsErrorType(sig.Results().At(i).Type()) {
+							dropped = false
+						}
+					}
+				}
+			}
+			if call == nil || eng.Callee(info, call) != fi.Obj {
+				return true
+			}
+			ord++
+			if nonErr == 0 {
+				return true
+			}
+			n++
+			c.Check(!dropped, rule, fmt.Sprintf("%s:recursive-call#%d:result-used", shortFn(fi), ord), call.Pos(), "the sub-tree's result is used",
+				"the value returned by the recursive call is dropped: what the sub-tree accumulated (a counter, a set, a found flag) is lost for the rest of the traversal")
+			return true
+		})
+	}
+	c.Notes = append(c.Notes, fmt.Sprintf("%s: %d recursive calls of value-returning functions in %v", rule, n, pkgs))
+}
